@@ -250,3 +250,150 @@ func checkC09(c WKCase, st *stats.Collector) error {
 func TestC09(t *testing.T) {
 	pk.Run(t, "C09", genSmallFile(wl.CfgParams{NoCustom: true, NoSkipMagic: true, Compressions: cheapMix}, 14, 60, true), checkC09)
 }
+
+// ---- large files: cuts concentrated around record boundaries
+//
+// Enumerating every cut is only affordable for files of a few KiB, which keeps every chunk far below
+// the sizes at which size-dependent code paths switch (tens of KiB). Here files with chunks of
+// 64-200 KiB are cut at every position within 70 bytes around each top-level record start/end, around
+// the chunk payload start, and at a few generated positions inside payloads.
+
+type C09BigCase struct {
+	W    wl.Workload
+	K    wl.Config
+	Cuts []uint32 // generated extra cut positions (reduced modulo the file length)
+}
+
+func genC09Big(t *rapid.T) C09BigCase {
+	k := wl.GenConfig(t, wl.CfgParams{NoCustom: true, NoSkipMagic: true, ForceChunked: true, Compressions: []string{"", "", "zstd", "lz4"}})
+	k.ChunkSize = rapid.SampledFrom([]int64{64 << 10, 100 << 10, 200 << 10}).Draw(t, "big-chunk-size")
+	if k.Compression == "zstd" && k.Level > 1 {
+		k.Level = 1
+	}
+	w := wl.Workload{}
+	w.Ops = append(w.Ops, wl.Op{S: &wl.Schema{ID: 1, Name: "s", Encoding: "e", Data: []byte{1}}}, wl.Op{C: &wl.Channel{ID: 0, SchemaID: 1, Topic: "/a"}}, wl.Op{C: &wl.Channel{ID: 1, Topic: "/b"}})
+	n := rapid.IntRange(4, 14).Draw(t, "n-big-msgs")
+	for i := 0; i < n; i++ {
+		size := rapid.SampledFrom([]int{10, 1000, 20 << 10, 40 << 10, 70 << 10}).Draw(t, "big-size")
+		w.Ops = append(w.Ops, wl.Op{M: &wl.Message{ChannelID: uint16(i % 2), Sequence: uint32(i), LogTime: uint64(i), PublishTime: uint64(i), Data: wl.Fill(size, rapid.Uint64().Draw(t, "big-seed")|1)}})
+		if i == n/2 {
+			w.Ops = append(w.Ops, wl.Op{A: &wl.Attachment{Name: "a", MediaType: "m", Data: wl.Fill(300, 7)}})
+		}
+	}
+	return C09BigCase{W: w, K: k, Cuts: rapid.SliceOfN(rapid.Uint32(), 0, 12).Draw(t, "extra-cuts")}
+}
+
+func checkC09Big(c C09BigCase, st *stats.Collector) error {
+	w, k := &c.W, c.K
+	file, _, err := mc.WriteBytes(w, k)
+	if err != nil {
+		return pk.Failf("write-error", "writer rejected a well-formed call sequence: %v", err)
+	}
+	d, err := specdec.Decode(file, specOpts(k))
+	if err != nil {
+		return pk.Failf("specdec", "reference decoder rejects the file: %v", err)
+	}
+	cutSet := map[int]bool{}
+	addAround := func(p uint64) {
+		for dlt := -4; dlt <= 70; dlt++ {
+			q := int(p) + dlt
+			if q >= 0 && q < len(file) {
+				cutSet[q] = true
+			}
+		}
+	}
+	for _, r := range d.Records {
+		addAround(r.Offset)
+		addAround(r.End())
+		if r.Op == specdec.OpChunk {
+			addAround(r.PayloadOffset)
+		}
+	}
+	for _, x := range c.Cuts {
+		cutSet[int(x)%len(file)] = true
+	}
+	// completeness bookkeeping as in the small-file check
+	type chunkEnd struct {
+		end     uint64
+		evAfter int
+		hasMsg  bool
+	}
+	var chunks []chunkEnd
+	ev := 0
+	maxChunk := uint64(0)
+	for _, r := range d.Records {
+		ev += eventsPerRecord(r)
+		if r.Op == specdec.OpChunk {
+			n := 0
+			for _, in := range r.Inner {
+				if in.Op == specdec.OpMessage {
+					n++
+				}
+			}
+			last := ev
+			for i := len(r.Inner) - 1; i >= 0 && r.Inner[i].Op != specdec.OpMessage; i-- {
+				last--
+			}
+			chunks = append(chunks, chunkEnd{r.End(), last, n > 0})
+			if r.UncompressedSize > maxChunk {
+				maxChunk = r.UncompressedSize
+			}
+		}
+	}
+	evals := 0
+	for _, validate := range []bool{false, true} {
+		lp := mc.LexParams{ValidateCRC: validate, AttCRC: true, MaxEvents: 100000}
+		base := mc.LexAll(bytesReader(file), lp, false)
+		if !base.Clean() {
+			return pk.Failf("baseline", "intact file does not read cleanly: %v %v %s", base.OpenErr, base.Err, base.Panic)
+		}
+		T := mc.Sigs(base.Events)
+		for cut := range cutSet {
+			for _, seekable := range []bool{true, false} {
+				var src io.Reader = bytesReader(file[:cut])
+				if !seekable {
+					src = io.MultiReader(bytes.NewReader(file[:cut]))
+				}
+				res := mc.LexAll(src, lp, false)
+				evals++
+				label := fmt.Sprintf("lexer(validate=%v, seekable=%v), %d-byte file cut at %d", validate, seekable, len(file), cut)
+				if res.Panic != "" {
+					return pk.Failf("panic", "%s: %s", label, res.Panic)
+				}
+				got := res.Events
+				if len(got) > len(T) {
+					return pk.Failf("extra", "%s: %d events, the intact file has %d", label, len(got), len(T))
+				}
+				for i := range got {
+					if mc.Sig(&got[i]) == T[i] {
+						continue
+					}
+					if i == len(got)-1 && got[i].Kind == "attachment" && base.Events[i].Kind == "attachment" &&
+						mc.AttFieldsSig(got[i].A) == mc.AttFieldsSig(base.Events[i].A) && bytes.HasPrefix(base.Events[i].A.Data, got[i].A.Data) {
+						continue
+					}
+					return pk.Failf("altered", "%s: event #%d differs from the intact file's", label, i)
+				}
+				need := 0
+				for _, ch := range chunks {
+					if ch.end <= uint64(cut) && ch.hasMsg {
+						need = ch.evAfter
+					}
+				}
+				if len(got) < need {
+					return pk.Failf("incomplete", "%s: %d events returned (err %v); a chunk completely written before the cut ends at event %d", label, len(got), res.Err, need)
+				}
+			}
+		}
+	}
+	st.Class(fmt.Sprintf("big-files,compression=%s", k.Compression), 1)
+	st.Case(wl.Hash(c), maxChunk >= 64<<10, evals, "big-file-boundary-cuts")
+	if st.WantSample() && maxChunk >= 64<<10 {
+		st.Sample(map[string]any{"K": k, "file_len": len(file), "largest_chunk": maxChunk, "cuts": len(cutSet)})
+	}
+	return nil
+}
+
+func TestC09Big(t *testing.T) {
+	pk.Run(t, "C09b", genC09Big, checkC09Big)
+}
